@@ -542,7 +542,7 @@ def run(tier, seed):
         if rc != 0:
             c.obligation_broken("coqchk of Props/C13.vo", out[-800:])
     # a broken obligation widens the search to the thorough stream
-    n = 2200 if tier == "thorough" else 900 if c.broken else 330
+    n = 2200 if tier == "thorough" else 600 if c.broken else 330
     tmp = core.scratch_dir("xv-c13-")
     try:
         cases = directed_cases() + [gen_case(c.rng) for _ in range(n)]
